@@ -2,8 +2,8 @@
 from reg._common import COMMON_ASSUME
 
 ENTRY = {
-    'lean_files': ['Tables/C12.lean', 'Props/C12.lean'],
-    'lemma_files': ['Lemmas/Green.lean', 'Model/Basic.lean', 'Model/Curve.lean', 'Model/Area.lean'],
+    'lean_files': ['Tables/C12.lean', 'Props/C12.lean', 'Props/C12More.lean'],
+    'lemma_files': ['Lemmas/TriDeriv.lean', 'Model/TriDeriv.lean', 'Lemmas/Green.lean', 'Model/Basic.lean', 'Model/Curve.lean', 'Model/Area.lean'],
     'script': 'props/c12.py',
     # the pure-Python compute_length needs SciPy, which only the tooling interpreter has
     'python': {'pure': '/usr/local/bin/python3-vt'},
